@@ -14,7 +14,8 @@ CONSTANTS
   Target,                      \* the bundle directory under construction (clean absolute path)
   DEV_PrepOwnPathDirRemoved,   \* a directory excluded by its own path is removed and the walk continues into it (fails)
   DEV_PrepPruneNonDominating,  \* a directory excluded as "dir/" is removed even when a later negation re-includes content
-  DEV_PrepAbsLinkAccepted      \* an absolute link target that resolves inside the work directory is accepted
+  DEV_PrepAbsLinkAccepted,     \* an absolute link target that resolves inside the work directory is accepted
+  DEV_PrepReenterAccepted      \* a relative target that climbs above the package root and re-enters it by name is accepted
 
 Work == Append(Target, "w")         \* stands for the .tmp-* work directory
 Final == Append(Target, "h")        \* stands for the hash-named final directory
@@ -36,6 +37,8 @@ PrepFn(f, rs, rel, marks) ==
         IF DEV_PrepPruneNonDominating \/ x2.dom THEN [f |-> RemoveAll(f, abs).fs, r |-> "skip", marks |-> marks]
         ELSE [f |-> f, r |-> "nil", marks |-> Append(marks, abs)]
      ELSE IF node.k = "l" /\ IsAbsT(node.tgt) /\ ~DEV_PrepAbsLinkAccepted THEN [f |-> f, r |-> "err", marks |-> marks]
+     ELSE IF node.k = "l" /\ ~IsAbsT(node.tgt) /\ ~DEV_PrepReenterAccepted
+             /\ ~Under(JoinClean(<<"#root">> \o Parent(rel), node.tgt), <<"#root">>) THEN [f |-> f, r |-> "err", marks |-> marks]
      ELSE LET real == Eval(f, abs) IN
        IF real.st # "ok" THEN [f |-> f, r |-> "err", marks |-> marks]
        ELSE IF ~Under(real.p, Work) THEN [f |-> f, r |-> "err", marks |-> marks]
